@@ -71,6 +71,12 @@ STRUCTS = [
 ]
 
 
+LOOP_EXEMPT = {
+    ('json_write::write_ink_list', 'InkList::origins'):
+        'merges the origin definitions\' names into the saved origin-name list without duplicates (conditional push by design)',
+}
+
+
 def inserted_keys(prog, fns, tr):
     out = {}
     for fn in fns:
@@ -168,6 +174,63 @@ def run(chk, prog):
         a = prog.adts.get({'Choice': 'bladeink::choice::Choice', 'Flow': 'bladeink::flow::Flow'}.get(s_, '')) or prog.adt(s_)
         if a is None or f_ not in [x['n'] for x in a['variants'][0]['fields']]:
             chk.note('C02 field table entry is stale: %s::%s' % (s_, f_))
+
+    # ---- 2b. writer loops are total
+    R4 = 'C02.writer-loops-total'
+    chk.rule(R4, 'In the save writers every iteration of a loop over a state collection reaches the insert/push that '
+             'emits the element (no element is filtered out), except VariablesState::write_json, whose elision of '
+             'default-valued globals is undone by the loader (it refills from default_global_variables).')
+    TOTAL_WRITERS = ['json_write::write_int_dictionary', 'json_write::write_dictionary_values',
+                     'json_write::write_list_rt_objs', 'json_write::write_choice_tags', 'json_write::write_ink_list',
+                     'CallStack::write_json', 'Thread::write_json', 'StoryState::write_json']
+    nloops = 0
+    from analysis.cfg import cfg
+    for name in TOTAL_WRITERS:
+        f = prog.fn(name)
+        if not chk.anchor(R4, name, f):
+            continue
+        g = cfg(f)
+        heads = g.loops_heads()
+        li = 0
+        for bb, t in f.calls():
+            if callee_short(t).rsplit('::', 1)[-1] != 'next' or not (t['f'].get('trait') or '').endswith('iterator::Iterator'):
+                continue
+            loop = None
+            for h, tails in heads.items():
+                body = g.loop_body(h, tails)
+                if bb in body and (loop is None or len(body) < len(loop)):
+                    loop = body
+            if loop is None:
+                continue
+            sw = f.blocks[t['t']]['term'] if 't' in t else None
+            if not sw or sw['k'] != 'switch':
+                continue
+            some_t = [tb for v, tb in sw['ts'] if v == 1] or ([sw['else']] if 1 not in [v for v, _ in sw['ts']] else [])
+            sinks = [b for b in loop if f.blocks[b]['term'] and f.blocks[b]['term']['k'] == 'call'
+                     and callee_short(f.blocks[b]['term']) in ('Map::insert', 'Vec::push', 'HashMap::insert')]
+            src = sorted(a[6:] for a in tr.prov(f, t['args'][0]) if a.startswith('field:') and not a.startswith('field:Option'))
+            srcname = src[-1] if src else 'param'
+            if (name, srcname) in LOOP_EXEMPT:
+                chk.ok(R4, chk.key(R4, name, srcname), 'table: ' + LOOP_EXEMPT[(name, srcname)], f.loc(bb))
+                continue
+            nloops += 1
+            # a path from the Some edge back to the loop head that stays in the loop and avoids every sink
+            w = g.path(some_t, lambda b: b == bb, avoid=set(sinks) | (set(range(len(f.blocks))) - set(loop)))
+            chk.decide(R4, chk.key(R4, name, srcname, '#%d' % li), bool(sinks) and w is None,
+                       'every iteration emits its element',
+                       '%s can skip an element of the collection it saves (an iteration reaches the next one without '
+                       'insert/push): that entry is silently missing from every save' % name, f.loc(bb),
+                       {'witness_blocks': w})
+            li += 1
+    chk.floor(R4, 'writer loops', nloops, 8)
+    vw, vl = prog.fn('VariablesState::write_json'), prog.fn('VariablesState::load_json')
+    if chk.anchor(R4, 'VariablesState::write_json', vw) and chk.anchor(R4, 'VariablesState::load_json', vl):
+        refills = 'default_global_variables' in fields_read(prog, [vl], 'VariablesState', depth=0)
+        elides = 'default_global_variables' in fields_read(prog, [vw], 'VariablesState', depth=0)
+        chk.decide(R4, chk.key(R4, 'VariablesState', 'elision-undone-by-loader'), refills and elides,
+                   'the writer elides against default_global_variables and the loader refills from it',
+                   'the global-variable writer elides entries but the loader no longer refills them from '
+                   'default_global_variables (or vice versa)', vl.loc(0))
 
     # ---- 3. exhaustiveness
     wro = prog.fn('json_write::write_rtobject')
